@@ -10,7 +10,7 @@ class C06(ModelCheck):
     title = 'split: maximal runs of equal predicate value'
     focus = ('split',)
     kinds = KINDS
-    rule = ('case = program with split(predicate) whose predicate values are equal-but-never-identical big ints, tuples, strings, small ints, '
+    rule = ('case = program with split(predicate) whose predicate values are equal-but-never-identical big ints, tuples, strings, small ints, numpy scalars, nan (shared and fresh), plain objects equal only to themselves, or the answers of an impure counting predicate (recorded, one per item), '
             'at top level, under group_by with interleaved keys and nested in roll/split, x seeded interleaving; the run model (new segment '
             'exactly when the predicate value != the previous one) is checked between the tap in front of split and the head tap of its inner '
             'pipeline (items, creation event, close event = first item of the next run or the key\'s completion) plus the demux. '
